@@ -43,7 +43,7 @@ PROPS = {
                 rule='feasible run in which an observation was postponed past its planned start, two started in one step, or a tier move happened',
                 nontrivial=lambda o: o['probes'].get('observation_postponed') or o['probes'].get('two_starts_same_step')
                 or o['probes'].get('tier_move')),
-    'C06': dict(jobs=[('sim', 'general', .6), ('sim', 'delay', .2), ('sim', 'units', .2)], quick_n=3000,
+    'C06': dict(jobs=[('sim', 'general', .45), ('sim', 'delay', .15), ('sim', 'units', .15), ('taskdrv', '-', .25)], quick_n=4000,
                 rule='run with a zero-runtime or >=3-step task and at least one comparable pair of executions',
                 nontrivial=lambda o: (o['probes'].get('zero_runtime_task') or o['probes'].get('long_task')) and o['probes'].get('mono_pairs')),
     'C07': dict(jobs=[('sim', 'buffer', .6), ('buffer_ops', '-', .4)], quick_n=4000,
@@ -293,7 +293,7 @@ def _run_property(pid, tier, seed, budget_s, workers, scale, out):
     viols = []
     jobs = spec['jobs']
     cursor = {j: 0 for j in jobs}
-    chunk = {'sim': 20, 'cluster_ops': 150, 'buffer_ops': 150, 'repro': 3, 'pause': 2, 'pause_sample': 6, 'units': 10, 'delaymodel': 100}
+    chunk = {'sim': 20, 'cluster_ops': 150, 'buffer_ops': 150, 'repro': 3, 'pause': 2, 'pause_sample': 6, 'units': 10, 'delaymodel': 100, 'taskdrv': 200}
     timeout = {'sim': 120, 'repro': 300, 'pause': 600, 'pause_sample': 300, 'units': 300}
     submitted = 0
     pending = set()
